@@ -408,5 +408,5 @@ TECHNIQUE = "transition-table alignment (source zone vs RFC reading of the gener
 LEVEL_TEXT = ("For each visited zone and window the generated VTIMEZONE is checked for well-formedness, read with the independent RFC 5545 onset interpreter (R5) and "
               "aligned row by row with the transition table of the source zone; then R5(component) and component.to_tz() are compared with the source zone at "
               "every transition -1 s/0/+1 s, at midpoints and on a grid, and the component is regenerated from the converted zone. Thorough visits every zone "
-              "id of both providers; quick a per-shard sample plus sentinels.")
+              "id of both providers; quick a per-shard sample plus sentinels. Zones are also taken from the provider that is not active library-wide, and a converted zone must keep its answers after another VTIMEZONE was converted.")
 LEVEL_NOTE = "trusts R5 and the provider's own utcoffset/tzname/dst answers; pytz's table seeds the search for transitions"
